@@ -7,7 +7,7 @@ use nom::bytes::complete::tag;
 use nom::character::complete::{alpha1, digit1, hex_digit1, multispace0, multispace1, satisfy};
 use nom::combinator::{map, not, opt, recognize, verify};
 use nom::error::{ErrorKind, ParseError};
-use nom::multi::{many0, many1};
+use nom::multi::many0;
 use nom::sequence::{delimited, preceded, terminated, tuple};
 use nom::{AsChar, IResult, InputTakeAtPosition};
 use xml_nom::{helper, ncname, qname, xmlchar};
@@ -496,16 +496,7 @@ fn content_spec(input: &str) -> IResult<&str, model::DeclarationContent<'_>> {
 ///
 /// [\[47\] children](https://www.w3.org/TR/2008/REC-xml-20081126/#NT-children)
 fn children(input: &str) -> IResult<&str, model::DeclarationContentItem<'_>> {
-    alt((
-        map(
-            tuple((seq, opt(alt((tag("?"), tag("*"), tag("+")))))),
-            |(v, q)| model::DeclarationContentItem::Seq(v, q),
-        ),
-        map(
-            tuple((choice, opt(alt((tag("?"), tag("*"), tag("+")))))),
-            |(v, q)| model::DeclarationContentItem::Choice(v, q),
-        ),
-    ))(input)
+    choice_or_seq(input)
 }
 
 /// (Name | choice | seq) ('?' | '*' | '+')?
@@ -515,14 +506,7 @@ fn children(input: &str) -> IResult<&str, model::DeclarationContentItem<'_>> {
 /// [\[18\] cp](https://www.w3.org/TR/2009/REC-xml-names-20091208/#NT-cp)
 fn cp(input: &str) -> IResult<&str, model::DeclarationContentItem<'_>> {
     alt((
-        map(
-            tuple((seq, opt(alt((tag("?"), tag("*"), tag("+")))))),
-            |(v, q)| model::DeclarationContentItem::Seq(v, q),
-        ),
-        map(
-            tuple((choice, opt(alt((tag("?"), tag("*"), tag("+")))))),
-            |(v, q)| model::DeclarationContentItem::Choice(v, q),
-        ),
+        choice_or_seq,
         map(
             tuple((qname, opt(alt((tag("?"), tag("*"), tag("+")))))),
             |(v, q)| model::DeclarationContentItem::Name(v, q),
@@ -530,44 +514,27 @@ fn cp(input: &str) -> IResult<&str, model::DeclarationContentItem<'_>> {
     ))(input)
 }
 
-/// '(' S? cp ( S? '|' S? cp )+ S? ')'
+/// '(' S? cp ( S? '|' S? cp )+ S? ')' | '(' S? cp ( S? ',' S? cp )* S? ')'
+///
+/// Parsed in one pass: the first separator decides between choice and seq, so that a nested
+/// group is never parsed twice.
 ///
 /// [\[49\] choice](https://www.w3.org/TR/2008/REC-xml-20081126/#NT-choice)
-fn choice(input: &str) -> IResult<&str, Vec<model::DeclarationContentItem<'_>>> {
-    map(
-        delimited(
-            tuple((tag("("), multispace0)),
-            tuple((
-                cp,
-                many1(preceded(tuple((multispace0, tag("|"), multispace0)), cp)),
-            )),
-            tuple((multispace0, tag(")"))),
-        ),
-        |(f, mut r)| {
-            r.insert(0, f);
-            r
-        },
-    )(input)
-}
-
-/// '(' S? cp ( S? ',' S? cp )* S? ')'
 ///
 /// [\[50\] seq](https://www.w3.org/TR/2008/REC-xml-20081126/#NT-seq)
-fn seq(input: &str) -> IResult<&str, Vec<model::DeclarationContentItem<'_>>> {
-    map(
-        delimited(
-            tuple((tag("("), multispace0)),
-            tuple((
-                cp,
-                many0(preceded(tuple((multispace0, tag(","), multispace0)), cp)),
-            )),
-            tuple((multispace0, tag(")"))),
-        ),
-        |(f, mut r)| {
-            r.insert(0, f);
-            r
-        },
-    )(input)
+fn choice_or_seq(input: &str) -> IResult<&str, model::DeclarationContentItem<'_>> {
+    let (rest, first) = preceded(tuple((tag("("), multispace0)), cp)(input)?;
+    let (_, sep) = opt(preceded(multispace0, alt((tag("|"), tag(",")))))(rest)?;
+    let sep = sep.unwrap_or(",");
+    let (rest, mut items) = many0(preceded(tuple((multispace0, tag(sep), multispace0)), cp))(rest)?;
+    let (rest, _) = tuple((multispace0, tag(")")))(rest)?;
+    let (rest, q) = opt(alt((tag("?"), tag("*"), tag("+"))))(rest)?;
+    items.insert(0, first);
+    if sep == "|" {
+        Ok((rest, model::DeclarationContentItem::Choice(items, q)))
+    } else {
+        Ok((rest, model::DeclarationContentItem::Seq(items, q)))
+    }
 }
 
 /// '(' S? '#PCDATA' (S? '|' S? Name)* S? ')*' | '(' S? '#PCDATA' S? ')'
